@@ -31,6 +31,10 @@ def proj_crypt(op, a, b, full=True):
     failed = a.get("ret") == "NULL" or b.get("ret") == "NULL" or (ao or "").startswith("2a") or (bo or "").startswith("2a")
     if failed and a.get("errno") != b.get("errno"): return "errno differs"
     if ao == bo: return None
+    if bo == "unterminated": return None          # model: object holds arbitrary bytes, nothing to compare
+    t = op.split(" ")
+    if t[1] == "rn" and len(t) > 5 and int(t[5]) < 1:
+        return None    # nothing may be written for size <= 0: the field keeps whatever it held (digest of an earlier op)
     dig, exact = int(b.get("dig", 0)), b.get("exact") == "1"
     if exact or dig == 0 or ao in ("unterminated", "?") or bo in ("unterminated", "?"): return "output differs"
     x, y = unhx(ao), unhx(bo)
@@ -59,3 +63,38 @@ def run_budgeted(R, ops, meta=None, **kw):
     meta2 = [meta[i] for i in keep] if meta is not None else None
     il, ml, opf = R.run_pair(ops2, **kw)
     return ops2, meta2, il, ml
+
+# ---------------------------------------------------------------------------------------------
+DIGLEN = {"md5crypt": 22, "sunmd5": 22, "sha256crypt": 43, "yescrypt": 43, "gost_yescrypt": 43, "scrypt": 43, "sha512crypt": 86,
+          "sha1crypt": 28, "nt": 32, "descrypt": 11, "bsdicrypt": 11, "bcrypt": 31, "bcrypt_a": 31, "bcrypt_x": 31, "bcrypt_y": 31}
+
+def method_of(setting):
+    """which method a setting selects, by its tag (written from crypt(5), independent of the model)"""
+    for m, p in PREFIXES.items():
+        if m != "descrypt" and setting.startswith(p): return m
+    if len(setting) >= 2 and setting[0] in A64 and setting[1] in A64: return "des-family"
+    return None
+
+def finish_proof(R, ok, badthm, bad, diffs, what):
+    """common tail of a check: concrete oracle failures first; otherwise broken correspondence / proof"""
+    for op, why, line in bad[:10]:
+        R.add_violation(Violation("oracle", why + " at " + str(op)[:300], failing_input={"op": op, "why": why, "observed": line}))
+    if diffs and not bad:
+        R.add_violation(Violation("correspondence", "model and implementation disagree on the %s projection: %s" % (what, diffs[0][1][:400]),
+                                  detail={"first": diffs[:10]}, unproved=["correspondence " + what]))
+    if not ok and not bad:
+        R.add_violation(Violation("proof", "theorems no longer check: " + ", ".join(badthm),
+                                  detail={"log": getattr(R, "proof_log", "")}, unproved=badthm))
+
+def sample_cov(R, ops, il, ml, k=4):
+    idx = R.rng.sample(range(len(ops)), min(k, len(ops)))
+    R.cov["samples"] = [{"op": ops[i][:400], "impl": il[i][:300], "model": ml[i][:300]} for i in idx]
+
+def dist_cov(R, meta, il):
+    d = R.cov["distribution"]
+    for m, l in zip(meta, il):
+        f = fields(l)
+        out = f.get("out", "")
+        cls = "ok" if (f.get("ret") != "NULL" and not out.startswith("2a")) else f.get("errno", "?")
+        k = "%s:%s" % (m[0], cls); d[k] = d.get(k, 0) + 1
+        t = "tag:" + m[1]; d[t] = d.get(t, 0) + 1
